@@ -69,7 +69,7 @@ ADD3 = {
  "C09": "; bounds as of round 11: circular dictionaries 1..5 (7), accumulating histories <= 10 (13), raw-decoder dictionaries 1..7 (12)",
  "C10": "; bounds as of round 11: circular dictionaries 1..5 (7) x every limit, raw-decoder dictionaries 1..8 (11) x every limit",
  "C11": "; bounds as of round 11: automaton scope to depth 4 (5), BufReader capacities 1..4 (12); payloads whose last symbol is a match at every distance-slot boundary up to 4096 x six length classes x 2 (6) salts",
- "C12": "; encoder targets whose output contains a cached byte plus a run of >= 9 pending 0xFF bytes released at once (carry witnesses of the model-guided search); thorough tier: every call index and every sink cut up to 20 000 bytes, no stride",
+ "C12": "; encoder targets whose output contains a cached byte plus a run of >= 9 pending 0xFF bytes released at once (carry witnesses of the model-guided search); thorough tier: every call index and every sink cut up to 20 000 bytes, no stride; sinks of fixed capacity (full after c bytes for 17 capacities below the output length: Err, accepted bytes a prefix)",
  "C13": "; stored chunks of 1/2/3/9 bytes in mid-stream (with and without dictionary reset) followed by copies into / one byte before / far before them, by state-inheriting chunks and by an illegal control byte, alone and as XZ blocks",
  "C14": "; bounds as of round 11: call histories to depth 7 (10), symbol-level first streams up to length 17 (21); streams with an illegal properties byte (225, lc 0 / lp 5) over an untouched payload as operations of the LZMA2 history graph",
  "C17": "; bounds as of round 11: every second (every) well-formed 2-chunk sequence over the reduced kinds; thorough also every 2-chunk sequence over the full kinds and every 3-chunk sequence over the reduced kinds (3 613 bases); every size-field mutant and every mutant of up to 40 bytes is also read through a BufReader of every capacity 1..len+1, bytewise and cut in half; property-byte and control-byte mutants are also given twice (reset in between) to a raw Lzma2Decoder that decoded the valid base first",
